@@ -277,6 +277,59 @@ def check_empty(case, acc):
                           group=f"{bname}/empty-circuit/statevector")
 
 
+def history_menu(seed):
+    A = angles(seed)
+    return [
+        {"word": [["H", [0], None, "", False]], "n": 1, "init": None, "rsv": True},
+        {"word": [["RY", [0], None, A[1], False], ["CNOT", [1], [0], "", False]], "n": 2, "init": None, "rsv": False},
+        {"word": [["X", [1], None, "", False]], "n": 2, "init": "dense", "rsv": True},
+        {"word": [["H", [2], None, "", False], ["CRZ", [0], [2], A[2], False]], "n": 3, "init": None, "rsv": True},
+        {"word": [["RX", [1], None, A[2], False]], "n": 3, "init": "dense", "rsv": True},
+        {"word": [], "n": 2, "init": "dense", "rsv": True},
+        {"word": [["X", [0], None, "", False]], "n": 3, "init": None, "rsv": False},
+    ]
+
+
+def check_history(case, acc):
+    """E2-style: ONE backend object serves a whole sequence of simulate calls (different circuits, widths, initial vectors,
+    return_statevector on/off); every answer must be the reference answer of that call alone (no state kept between calls)."""
+    from tangelo.linq import get_backend
+    bname = case["backend"]
+    be = get_backend(bname)
+    order = be.backend_info()["statevector_order"]
+    tol = TOL if bname == "cirq" else TOL_SYMPY
+    for step, idx in enumerate(case["history"]):
+        m = history_menu(case.get("seed", 0))[idx]
+        word, n = m["word"], m["n"]
+        c = mk_circ(word, n)
+        init = dense_state(n, case.get("seed", 0)) if m["init"] == "dense" else None
+        psi_ref = SV.run(word, n, init)
+        init_be = None if init is None else SV.to_order(init, n, order)
+        if init_be is not None and bname == "sympy":
+            init_be = init_be.reshape(-1, 1)
+        acc.ev()
+        acc.transitions += 1
+        try:
+            freqs, sv = be.simulate(c, return_statevector=m["rsv"], initial_statevector=init_be)
+            freqs = {k: num(v) for k, v in freqs.items() if num(v) > 1e-9}
+        except Exception as e:
+            acc.violation(f"{bname}/history/exception", case, {"step": step, "err": repr(e)[:300]}, group=f"{bname}/history/exception")
+            return
+        f_ref = {k: v for k, v in SV.freqs(psi_ref, n).items() if v > 1e-9}
+        ok = freq_diff(freqs, f_ref) <= tol and all(len(k) == n for k in freqs)
+        if ok and m["rsv"]:
+            svn = np.array(np.asarray(sv).tolist(), dtype=complex).reshape(-1)
+            ok = svn.size == 2 ** n and SV.dist_up_to_phase(SV.from_order(svn, n, order), psi_ref) <= tol
+        if ok and not m["rsv"] and sv is not None:
+            ok = False
+        if not ok:
+            acc.violation(f"{bname}/history/answer-depends-on-earlier-calls-on-the-same-backend", case,
+                          {"step": step, "got": freqs, "ref": f_ref}, group=f"{bname}/history/answer-depends-on-earlier-calls")
+            return
+    acc.nt((bname, "history", tuple(case["history"])))
+    acc.out((bname, "history-ok"))
+
+
 def check_sampled(case, acc):
     """E3: n_shots in {1,2}; scripted scipy sampler; every sample sequence."""
     from tangelo.linq import get_backend
@@ -426,10 +479,16 @@ def shards(tier, seed):
     # idle qubits: register wider than the highest index, gate on the highest index only
     sh.append({"kind": "idle", "seed": seed})
     sh.append({"kind": "empty", "seed": seed})
+    for first in range(7):
+        sh.append({"kind": "history", "backend": "cirq", "first": first, "seed": seed, "L": 3 if tier == "quick" else 4})
+        sh.append({"kind": "history", "backend": "sympy", "first": first, "seed": seed, "L": 2 if tier == "quick" else 3})
     sh.append({"kind": "sampled", "seed": seed, "tier": tier})
     CH = 10 ** 7  # chunk size used by the sampling loops (a local constant of the implementation)
     for shots in ((CH - 1, CH, CH + 1, 2 * CH) if tier == "quick" else (3, 64, 65, CH - 1, CH, CH + 1, 2 * CH - 1, 2 * CH, 2 * CH + 1, 3 * CH)):
         sh.append({"kind": "sampled_bulk", "seed": seed, "n_shots": shots})
+    # heaviest shards first (tail latency): bulk draws, then the slow sympy backend, then everything else in order
+    rank = lambda x: (0, -x["n_shots"]) if x["kind"] == "sampled_bulk" else (1, 0) if x.get("backend") == "sympy" else (2, 0)
+    sh.sort(key=rank)
     return sh
 
 
@@ -515,6 +574,12 @@ def run_shard(sh):
                                    "want_sv": True}, acc)
         # (the sympy backend ignores n_shots and returns exact frequencies: no sampled mode to explore there)
         acc.sample({"kind": "sampled", "word": [al[0], al[2]], "n": 2, "n_shots": 2})
+    elif k == "history":
+        for l in range(1, sh["L"]):
+            for rest in itertools.product(range(7), repeat=l):
+                acc.states += 1
+                check_history({"kind": "history", "backend": sh["backend"], "history": [sh["first"]] + list(rest), "seed": seed}, acc)
+        acc.sample({"kind": "history", "backend": sh["backend"], "history": [sh["first"], 3, 1]}, cap=1)
     elif k == "sampled_bulk":
         check_sampled_bulk({"kind": "sampled_bulk", "word": [["H", [0], None, "", False]], "n": 1, "n_shots": sh["n_shots"],
                             "backend": "cirq"}, acc)
@@ -535,6 +600,8 @@ def replay_case(case):
         check_sampled(case, acc)
     elif k == "sampled_bulk":
         check_sampled_bulk(case, acc)
+    elif k == "history":
+        check_history(case, acc)
     return acc
 
 
